@@ -14,7 +14,12 @@
 (* Dev selects named deviations (the pinned tree's behaviour):             *)
 (*   "InPlaceWrite"  open(key,"wb") truncates the live file                *)
 (*   "UncheckedLoad" whatever unpickles is returned; a short file raises   *)
-(* With Dev = {} the algorithm is: stat; on hit open+load and *verify* the *)
+(*   "CheckThenMkdir" the directory is created by exists() followed by a   *)
+(*                   strict mkdir (two steps) instead of one mkdir that    *)
+(*                   tolerates an existing directory                       *)
+(* The cache directory itself may not exist yet (`dir`): every call first  *)
+(* makes sure it does, and several first callers may do so at once.        *)
+(* With Dev = {} the algorithm is: mkdir (tolerant); stat; on hit open+load and *verify* the *)
 (* entry was stored for this very expression, otherwise treat as a miss;   *)
 (* on miss doit, write a private temporary file, close, os.replace.        *)
 (***************************************************************************)
@@ -41,8 +46,10 @@ VARIABLES link,    \* Names -> 0..MaxInodes          (0 = absent)
           rfd,     \* inode open for reading (0 = none)
           wfd,     \* inode open for writing
           woff,    \* chunks written through wfd
-          calls, crashes
-vars == <<link, ino, nino, pc, arg, res, rfd, wfd, woff, calls, crashes>>
+          calls, crashes,
+          dir,     \* the cache directory exists
+          dseen    \* p -> what p's exists() saw (used by deviation "CheckThenMkdir" only)
+vars == <<link, ino, nino, pc, arg, res, rfd, wfd, woff, calls, crashes, dir, dseen>>
 procvars == <<pc, arg, res, rfd, wfd, woff>>
 
 Empty == [src |-> None, len |-> 0]
@@ -57,6 +64,8 @@ Init == /\ link = [n \in Names |-> 0]
         /\ wfd = [p \in Procs |-> 0]
         /\ woff = [p \in Procs |-> 0]
         /\ calls = 0 /\ crashes = 0
+        /\ dir \in BOOLEAN
+        /\ dseen = [p \in Procs |-> FALSE]
 
 Key(p) == KeyOf[arg[p]]
 Goto(p, l) == pc' = [pc EXCEPT ![p] = l]
@@ -66,8 +75,27 @@ Call(p, e) ==
   /\ calls' = calls + 1
   /\ arg' = [arg EXCEPT ![p] = e]
   /\ res' = [res EXCEPT ![p] = None]
+  /\ Goto(p, "mkdir")
+  /\ UNCHANGED <<link, ino, nino, rfd, wfd, woff, crashes, dir, dseen>>
+
+\* cache_directory.mkdir(exist_ok=True, parents=True): whoever comes first creates it, nobody minds
+EnsureDir(p) ==
+  /\ pc[p] = "mkdir" /\ "CheckThenMkdir" \notin Dev
+  /\ dir' = TRUE
   /\ Goto(p, "stat")
-  /\ UNCHANGED <<link, ino, nino, rfd, wfd, woff, crashes>>
+  /\ UNCHANGED <<link, ino, nino, arg, res, rfd, wfd, woff, calls, crashes, dseen>>
+\* deviation: if not cache_directory.exists(): cache_directory.mkdir()
+DirStat(p) ==
+  /\ pc[p] = "mkdir" /\ "CheckThenMkdir" \in Dev
+  /\ dseen' = [dseen EXCEPT ![p] = dir]
+  /\ Goto(p, "mkdir2")
+  /\ UNCHANGED <<link, ino, nino, arg, res, rfd, wfd, woff, calls, crashes, dir>>
+StrictMkdir(p) ==
+  /\ pc[p] = "mkdir2"
+  /\ IF dseen[p] THEN Goto(p, "stat") /\ UNCHANGED <<dir, res>>
+     ELSE IF dir THEN res' = [res EXCEPT ![p] = RAISED] /\ Goto(p, "ret") /\ UNCHANGED dir   \* FileExistsError
+     ELSE dir' = TRUE /\ Goto(p, "stat") /\ UNCHANGED res
+  /\ UNCHANGED <<link, ino, nino, arg, rfd, wfd, woff, calls, crashes, dseen>>
 
 \* the directory may hold anything before the first call: a key file left by another program,
 \* an older version of the library or a killed writer -- `len` chunks of content that is not a
@@ -77,13 +105,14 @@ Plant(k, n) ==
   /\ nino' = nino + 1
   /\ link' = [link EXCEPT ![k] = nino + 1]
   /\ ino' = [ino EXCEPT ![nino + 1] = [src |-> "foreign", len |-> n]]
-  /\ UNCHANGED <<procvars, calls, crashes>>
+  /\ dir                      \* something can only be in a directory that exists
+  /\ UNCHANGED <<procvars, calls, crashes, dir, dseen>>
 
 \* filename.exists()
 Stat(p) ==
   /\ pc[p] = "stat"
   /\ Goto(p, IF link[Key(p)] # 0 THEN "openr" ELSE "doit")
-  /\ UNCHANGED <<link, ino, nino, arg, res, rfd, wfd, woff, calls, crashes>>
+  /\ UNCHANGED <<link, ino, nino, arg, res, rfd, wfd, woff, calls, crashes, dir, dseen>>
 
 \* open(filename, "rb"): the handle pins the inode
 OpenR(p) ==
@@ -91,7 +120,7 @@ OpenR(p) ==
   /\ link[Key(p)] # 0          \* nothing in the model unlinks a key file
   /\ rfd' = [rfd EXCEPT ![p] = link[Key(p)]]
   /\ Goto(p, "load")
-  /\ UNCHANGED <<link, ino, nino, arg, res, wfd, woff, calls, crashes>>
+  /\ UNCHANGED <<link, ino, nino, arg, res, wfd, woff, calls, crashes, dir, dseen>>
 
 \* pickle.load + (Dev = {}) verification that the entry belongs to this expression
 Load(p) ==
@@ -105,13 +134,13 @@ Load(p) ==
              THEN res' = [res EXCEPT ![p] = arg[p]] /\ Goto(p, "ret")
              ELSE res' = res /\ Goto(p, "doit")   \* unreadable or foreign entry = miss
   /\ rfd' = [rfd EXCEPT ![p] = 0]
-  /\ UNCHANGED <<link, ino, nino, arg, wfd, woff, calls, crashes>>
+  /\ UNCHANGED <<link, ino, nino, arg, wfd, woff, calls, crashes, dir, dseen>>
 
 \* unevaluated_expr.doit() -- no file-system effect
 Doit(p) ==
   /\ pc[p] = "doit"
   /\ Goto(p, "openw")
-  /\ UNCHANGED <<link, ino, nino, arg, res, rfd, wfd, woff, calls, crashes>>
+  /\ UNCHANGED <<link, ino, nino, arg, res, rfd, wfd, woff, calls, crashes, dir, dseen>>
 
 WTarget(p) == IF "InPlaceWrite" \in Dev THEN Key(p) ELSE Tmp(p)
 
@@ -130,7 +159,7 @@ OpenW(p) ==
             /\ UNCHANGED <<nino, link>>
   /\ woff' = [woff EXCEPT ![p] = 0]
   /\ Goto(p, "write")
-  /\ UNCHANGED <<arg, res, rfd, calls, crashes>>
+  /\ UNCHANGED <<arg, res, rfd, calls, crashes, dir, dseen>>
 
 \* one chunk reaches the inode (positional write at this handle's offset)
 Write(p) ==
@@ -138,7 +167,7 @@ Write(p) ==
   /\ woff' = [woff EXCEPT ![p] = woff[p] + 1]
   /\ ino' = [ino EXCEPT ![wfd[p]] =
                [src |-> arg[p], len |-> IF @.len > woff[p] + 1 THEN @.len ELSE woff[p] + 1]]
-  /\ UNCHANGED <<link, nino, pc, arg, res, rfd, wfd, calls, crashes>>
+  /\ UNCHANGED <<link, nino, pc, arg, res, rfd, wfd, calls, crashes, dir, dseen>>
 
 Close(p) ==
   /\ pc[p] = "write" /\ woff[p] = NChunks
@@ -146,7 +175,7 @@ Close(p) ==
   /\ IF "InPlaceWrite" \in Dev
      THEN res' = [res EXCEPT ![p] = arg[p]] /\ Goto(p, "ret")
      ELSE res' = res /\ Goto(p, "replace")
-  /\ UNCHANGED <<link, ino, nino, arg, rfd, woff, calls, crashes>>
+  /\ UNCHANGED <<link, ino, nino, arg, rfd, woff, calls, crashes, dir, dseen>>
 
 \* os.replace(tmp, key): atomic re-link; readers holding the old inode are unaffected
 Replace(p) ==
@@ -154,13 +183,13 @@ Replace(p) ==
   /\ link' = [link EXCEPT ![Key(p)] = link[Tmp(p)], ![Tmp(p)] = 0]
   /\ res' = [res EXCEPT ![p] = arg[p]]
   /\ Goto(p, "ret")
-  /\ UNCHANGED <<ino, nino, arg, rfd, wfd, woff, calls, crashes>>
+  /\ UNCHANGED <<ino, nino, arg, rfd, wfd, woff, calls, crashes, dir, dseen>>
 
 \* the call returns res[p] (or raises when res[p] = RAISED) to its caller
 Return(p) ==
   /\ pc[p] = "ret"
   /\ Goto(p, "idle")
-  /\ UNCHANGED <<link, ino, nino, arg, res, rfd, wfd, woff, calls, crashes>>
+  /\ UNCHANGED <<link, ino, nino, arg, res, rfd, wfd, woff, calls, crashes, dir, dseen>>
 
 \* the process is killed anywhere inside a call; its handles vanish, the inodes stay
 Crash(p) ==
@@ -172,9 +201,9 @@ Crash(p) ==
   \* Tmp(p) names the private temporary file of p's call in flight; the real names are
   \* unique per call, so an orphaned one is never opened again: the model forgets it.
   /\ link' = [link EXCEPT ![Tmp(p)] = 0]
-  /\ UNCHANGED <<ino, nino, arg, woff, calls>>
+  /\ UNCHANGED <<ino, nino, arg, woff, calls, dir, dseen>>
 
-Step(p) == \/ Stat(p) \/ OpenR(p) \/ Load(p) \/ Doit(p) \/ OpenW(p)
+Step(p) == \/ EnsureDir(p) \/ DirStat(p) \/ StrictMkdir(p) \/ Stat(p) \/ OpenR(p) \/ Load(p) \/ Doit(p) \/ OpenW(p)
            \/ Write(p) \/ Close(p) \/ Replace(p) \/ Return(p) \/ Crash(p)
 Next == \/ \E p \in Procs : (\E e \in Exprs : Call(p, e)) \/ Step(p)
         \/ \E k \in Keys, n \in 1..NChunks : Plant(k, n)
@@ -182,11 +211,15 @@ Spec == Init /\ [][Next]_vars
 
 ----------------------------------------------------------------------------
 TypeOK == /\ \A n \in Names : link[n] \in 0..nino
-          /\ \A p \in Procs : pc[p] \in {"idle","stat","openr","load","doit","openw","write","replace","ret"}
+          /\ \A p \in Procs : pc[p] \in {"idle","mkdir","mkdir2","stat","openr","load","doit","openw","write","replace","ret"}
+          /\ dir \in BOOLEAN
 
 \* C16: whatever the directory has seen, a returning call returns doit() of its own argument
 ReturnsDoit == \A p \in Procs : pc[p] = "ret" /\ res[p] # RAISED => res[p] = arg[p]
 NeverRaises == \A p \in Procs : res[p] # RAISED
+
+\* files live in a directory that exists
+DirHoldsFiles == ((\E n \in Names : link[n] # 0) \/ (\E p \in Procs : pc[p] \notin {"idle", "mkdir", "mkdir2", "ret"})) => dir
 
 \* design invariant of the atomic-replace algorithm: a key file is never observable half-written
 KeyFilesComplete ==
